@@ -117,3 +117,16 @@ Definition run_case5 (l : list Z) : list (list Z) :=
   | 13 :: t => run_cli t
   | _ => run_case4 l
   end.
+
+(* kind 14: [threads; reps; inner case...]: jobs are pure functions of their input, so
+   however many run at once there is exactly one distinct result: the sequential one *)
+Definition run_conc (l : list Z) : list (list Z) :=
+  match l with
+  | _ :: _ :: inner => [93; 1] :: run_case5 inner
+  | _ => [[0]]
+  end.
+Definition run_case6 (l : list Z) : list (list Z) :=
+  match l with
+  | 14 :: t => run_conc t
+  | _ => run_case5 l
+  end.
